@@ -330,16 +330,7 @@ func (p *Program) Func(rel, recv, name string) *FuncDecl {
 
 // RawFunc is Func without inlining: the declaration as written.
 func (p *Program) RawFunc(rel, recv, name string) *FuncDecl {
-	fd := p.rawFunc(rel, recv, name)
-	if fd != nil {
-		// a function a rule asks for by name is an anchor: it is analysed as a unit
-		// and therefore never dissolved into its callers by the inliner
-		if p.anchors == nil {
-			p.anchors = map[*types.Func]bool{}
-		}
-		p.anchors[fd.Obj] = true
-	}
-	return fd
+	return p.rawFunc(rel, recv, name)
 }
 
 // Anchor marks a function as analysed as a unit (never inlined into callers).
